@@ -237,8 +237,8 @@ def check(run):
         if unsafe:
             run.notes.append("model predicts an unsafe use for %s=%s but the %s run survived (%s)" % (eid, v, var, impl))
             continue
-        if kind == "histrestr" and mverdict == "accept" and int(re.search(r"nbins=(-?\d+|big)", mo).group(1).replace("big", "99")) > 8:
-            mverdict = "reject"      # refHistogram of the base configuration has 8 values: more bins are a length error (not modelled)
+        if kind == "histrestr" and mverdict == "accept" and "nbins=8" not in mo.split():
+            mverdict = "reject"      # refHistogram of the base configuration has 8 values: any other bin count is a list-length error (not modelled)
         if impl != mverdict:
             run.mismatch("table:" + eid, "%s=%s (%s)" % (kw, v, var), impl, mo)
     run.notes.append("table sweep: %d runs, %.1f s" % (len(jobs), time.time() - t_start))
